@@ -1,28 +1,47 @@
 """C12 — velocity limits bound spending in every time window, across restarts."""
 import lib
+import gen_rustfn
 
 MANIFEST = dict(
     text="Coq theorem C12_window: for every policy spec with a finite limit and every history of approvals, "
          "node-entry writes and restarts with non-decreasing times, the approved amounts in any window no longer "
          "than (buckets-1)*interval sum to at most the limit (induction over the history with a per-bucket "
          "accounting invariant; saturating adds modelled); C12_restart_keeps_counted: a restart restores exactly the "
-         "persisted control.  The model (insert, persist-on-approve, restore) is run against VelocityControl and "
+         "persisted control.  C12_insert_is_source / C12_source_agrees_along_history: the model's insert IS the source's - "
+         "Gen/VelocityGen.v is regenerated on every run from vls-core/src/util/velocity.rs by the translator "
+         "tools/gen_rustfn.py (statement by statement; Rust constructs given meaning in Base/Rust.v) and proved equal to the "
+         "model, in both build profiles, on every state a history reaches.  The model (insert, persist-on-approve, restore) is also run against VelocityControl and "
          "against Node::add_keysend / check_onchain_tx / restore_node on the same histories on every run, and a "
          "sliding-window monitor checks the property itself on the implementation's answers; for the fee side as the "
          "daemon reaches it (SignWithdrawal through the wire codec and RootHandler) a monitor checks that the fee control "
          "books what the signed transaction really gives away (true input values from the previous transactions).",
     design="§4 C12",
-    note=lib.TB + "Modelled, not verified: serde round trip of the persisted control; clock monotonicity is the "
+    note=lib.TB + "Additionally trusted: tools/gen_rustfn.py (a construct outside its fragment is an error, never a guess) and the meaning "
+         "Base/Rust.v gives to u64/usize arithmetic, Vec operations and loops (64-bit target).  Modelled, not verified: serde round trip of the persisted control; clock monotonicity is the "
          "property's hypothesis.",
-    technique="Coq proof (invariant by induction over histories) + vm_compute correspondence with the Rust implementation",
+    technique="Coq proof (invariant by induction over histories; the core function translated from the Rust source on every run and proved equal to the model) + vm_compute correspondence with the Rust implementation",
 )
 
 
 def run(res):
     quick = res.tier == "quick"
-    ok = lib.proof_stage(res, "C12.v", "Props.C12",
-                         ["C12_window", "C12_restart_keeps_counted", "C12_unlimited", "C12_nonvacuous"])
+    # the translator regenerates Gen/VelocityGen.v from /repo's velocity.rs under the build lock, right before
+    # the theorems that relate it to the model are re-checked
+    report = {}
+
+    def regen():
+        report.update(gen_rustfn.generate_velocity(lib.REPO))
+    try:
+        ok = lib.proof_stage(res, "C12.v", "Props.C12",
+                             ["C12_window", "C12_restart_keeps_counted", "C12_insert_is_source",
+                              "C12_source_agrees_along_history", "C12_unlimited", "C12_nonvacuous"], pre=regen)
+    except gen_rustfn.GenError as e:
+        res.violation("the translator cannot read VelocityControl::insert / ::velocity (a construct outside its fragment): %s" % e,
+                      {"translator": "tools/gen_rustfn.py", "source": "vls-core/src/util/velocity.rs", "error": str(e),
+                       "theorem": "C12_insert_is_source"}, has_input=False)
+        ok = False
     cov = res.coverage
+    cov["translated_from_source"] = report
     n_bare = 400 if quick else 6000
     n_node = 150 if quick else 2500
     bare = lib.run_harness("velocity", "bare", res.seed, n_bare, res.tier)
